@@ -32,6 +32,8 @@ func textTransformer(cf *ssa.Function) bool {
 	return false
 }
 
+var identityDepth int
+
 // identitySlice checks the backward slice of a key/member operand.
 // strict: any call other than append/len/copy is reported; otherwise only text transformers and string concatenation.
 func identitySlice(v ssa.Value, strict bool) (bool, string) {
@@ -58,6 +60,29 @@ func identitySlice(v ssa.Value, strict bool) (bool, string) {
 			if cf != nil && cf.Signature.Recv() != nil {
 				if n, ok := derefNamed(cf.Signature.Recv().Type()); ok && n.Obj().Name() == "ConcurrentMap" && (cf.Name() == "Keys" || cf.Name() == "KeyVals") {
 					return false // keys enumerated from the keyspace itself
+				}
+			}
+			// a first-party helper that hands one of its arguments through unchanged (key := keyOf(cmd))
+			if cf != nil && firstParty(cf) && cf.Blocks != nil && identityDepth < 3 {
+				identityDepth++
+				allID := true
+				for _, b := range cf.Blocks {
+					for _, in := range b.Instrs {
+						if ret, isRet := in.(*ssa.Return); isRet {
+							for _, rv := range ret.Results {
+								if bt, isB := rv.Type().Underlying().(*types.Basic); isB && bt.Info()&types.IsString == 0 {
+									continue
+								}
+								if g, _ := identitySlice(rv, strict); !g {
+									allID = false
+								}
+							}
+						}
+					}
+				}
+				identityDepth--
+				if allID {
+					return true // continue through the call's arguments
 				}
 			}
 			if strict {
